@@ -171,6 +171,7 @@ fn seq_spec(ctx: &Ctx, shards: usize) -> SeqSpec {
         oracle: seq_oracle(),
         keys: vec![1],
         canon_sketch: false,
+        ghost_key: None,
         max_states: 2_000_000,
         time_cap_s: if ctx.quick() { 25.0 } else { 600.0 },
     }
